@@ -207,7 +207,13 @@ static int streamDispatch(MPT_INTERFACE(input) *in, MPT_TYPE(event_handler) cmd,
 	int ret;
 	
 	if ((len = srm->data._rd._state.data.msg) < 0) {
-		if ((ret = mpt_queue_recv(&srm->data._rd)) < 0) {
+		if ((ret = mpt_queue_recv(&srm->data._rd)) == MPT_ERROR(MissingBuffer)
+		    && !(mpt_stream_flags(&srm->data._info) & (MPT_STREAMFLAG(ReadMap) | MPT_STREAMFLAG(WriteMap)))
+		    && mpt_queue_prepare(&srm->data._rd.data, 64)) {
+			/* complete data on full queue: decoder needs scratch space */
+			ret = mpt_queue_recv(&srm->data._rd);
+		}
+		if (ret < 0) {
 			return ret;
 		}
 		if (!ret) {
